@@ -462,17 +462,13 @@ func init() {
 		redo := w.Fn("recovery/log_recovery", "LogRecovery", "Redo")
 		em := tablePageEmitters(w)
 		isRecLSN := func(v ssa.Value) bool { return fieldLoadOf(v, lsnFld) }
-		// guard edge: the edge of a comparison between the page LSN and the record LSN on which
-		// "page LSN < record LSN" holds, whatever the spelling (<, >, <=, >= and operand order)
-		lsnGuard := func(b *ssa.BasicBlock, succ int) bool {
-			i := blockIf(b)
-			if i == nil {
-				return false
-			}
-			v, neg := condBase(i.Cond)
-			bo, ok := v.(*ssa.BinOp)
-			if !ok {
-				return false
+		// lsnOlderWhenTrue: v is a comparison between the page LSN and the record LSN (any spelling, possibly
+		// negated); holds = "page LSN < record LSN" holds when v is true
+		lsnOlderWhenTrue := func(v0 ssa.Value) (holds bool, ok bool) {
+			v, neg := condBase(v0)
+			bo, isBin := v.(*ssa.BinOp)
+			if !isBin {
+				return false, false
 			}
 			pageSide := func(x ssa.Value) bool { return DependsOn(x, IsCallTo(a.PageGetLSN)) }
 			recSide := func(x ssa.Value) bool { return DependsOn(x, isRecLSN) }
@@ -487,10 +483,19 @@ func init() {
 			case bo.Op == token.LEQ && recSide(bo.X) && pageSide(bo.Y): // rec <= page
 				holdsWhenTrue = false
 			default:
+				return false, false
+			}
+			return holdsWhenTrue != neg, true
+		}
+		// guard edge: the edge of a comparison between the page LSN and the record LSN on which
+		// "page LSN < record LSN" holds, whatever the spelling (<, >, <=, >= and operand order)
+		lsnGuard := func(b *ssa.BasicBlock, succ int) bool {
+			i := blockIf(b)
+			if i == nil {
 				return false
 			}
-			binTrueOnEdge := (succ == 0) != neg
-			return binTrueOnEdge == holdsWhenTrue
+			holds, ok := lsnOlderWhenTrue(i.Cond)
+			return ok && (succ == 0) == holds
 		}
 		var vals []int64
 		for v := range em {
@@ -506,15 +511,73 @@ func init() {
 			}
 			if m == a.TPInit {
 				// Init(isForRedo=true) only rewrites the immutable id / prev-id header fields: idempotent by
-				// construction, provided the redo-mode flag is the constant true and Init honours it.
+				// construction. Init in format mode (isForRedo=false) wipes the page: it is allowed only where
+				// page LSN < record LSN holds (a page that was never written, or an older incarnation of it), and the
+				// page is then stamped with the record LSN.
 				reach := (&PathQ{Fn: redo, Cut: []EdgeCut{specCut(subj, v)}}).ReachableInstrs()
-				for in := range reach {
-					if isMut(in) {
-						c := in.(*ssa.Call)
-						cv, ok := constOf(c.Call.Args[len(c.Call.Args)-1])
-						r.Check(ok && constant.BoolVal(cv), "Redo:"+name+":Init-in-redo-mode", "Redo calls TablePage.Init with isForRedo=true", "isForRedo argument at "+w.InstrPos(c)+" is not the constant true")
-						n++
+				// a page older than the record (in particular one that was never written) is formatted: with
+				// "page LSN < record LSN" assumed at every comparison of the two, no path reaches UnpinPage without an
+				// Init call that can run in format mode
+				assumeOlder0 := func(b *ssa.BasicBlock, succ int) bool {
+					i := blockIf(b)
+					if i == nil {
+						return false
 					}
+					if _, ok := lsnOlderWhenTrue(i.Cond); !ok {
+						return false
+					}
+					return !lsnGuard(b, succ)
+				}
+				isFormatInit := func(x ssa.Instruction) bool {
+					if !isMut(x) {
+						return false
+					}
+					cc := x.(*ssa.Call)
+					cv, ok := constOf(cc.Call.Args[len(cc.Call.Args)-1])
+					return !(ok && constant.BoolVal(cv))
+				}
+				witF := (&PathQ{Fn: redo, Cut: []EdgeCut{specCut(subj, v), assumeOlder0}, Avoid: isFormatInit, Target: InstrCallsObj(a.BPMUnpin)}).FromEntry()
+				r.Check(witF == nil, "Redo:"+name+":older-page-is-formatted", "a page that is older than its "+name+" record (never written before the crash, or a former incarnation) is formatted by Redo", "path to UnpinPage on which the page is only initialised in redo mode (tuple count / free-space pointer keep whatever the data file had, zero for a page that was never written): "+w.DescribeWitness(redo, witF))
+				for in := range reach {
+					if !isMut(in) {
+						continue
+					}
+					n++
+					c := in.(*ssa.Call)
+					arg := c.Call.Args[len(c.Call.Args)-1]
+					key := "Redo:" + name + ":Init-in-redo-mode"
+					if cv, ok := constOf(arg); ok && constant.BoolVal(cv) {
+						r.Ok(key, "Redo calls TablePage.Init with the constant isForRedo=true")
+						continue
+					}
+					site := in
+					formatOnlyWhenOlder := false
+					if cv, ok := constOf(arg); ok && !constant.BoolVal(cv) {
+						// constant false: the call itself must sit behind the LSN guard
+						wit := (&PathQ{Fn: redo, Cut: []EdgeCut{specCut(subj, v), lsnGuard}, Target: func(x ssa.Instruction) bool { return x == site }}).FromEntry()
+						formatOnlyWhenOlder = wit == nil
+					} else if holds, ok := lsnOlderWhenTrue(arg); ok {
+						// isForRedo = !(page LSN < record LSN), in any spelling: format mode exactly when the page is older
+						formatOnlyWhenOlder = !holds
+					}
+					r.Check(formatOnlyWhenOlder, key, "Redo formats the page (Init with isForRedo=false) only when page LSN < record LSN", "isForRedo argument at "+w.InstrPos(c)+" can be false although the page on the data file is not older than the record")
+					// on the format path the page is stamped before it is unpinned
+					isStamp := func(in ssa.Instruction) bool {
+						c, ok := in.(*ssa.Call)
+						return ok && CalleeObj(c) == a.PageSetLSN && DependsOn(c.Call.Args[len(c.Call.Args)-1], isRecLSN)
+					}
+					assumeOlder := func(b *ssa.BasicBlock, succ int) bool {
+						i := blockIf(b)
+						if i == nil {
+							return false
+						}
+						if _, ok := lsnOlderWhenTrue(i.Cond); !ok {
+							return false
+						}
+						return !lsnGuard(b, succ)
+					}
+					wit := (&PathQ{Fn: redo, Cut: []EdgeCut{specCut(subj, v), assumeOlder}, Avoid: isStamp, Target: InstrCallsObj(a.BPMUnpin)}).FromAfter([]ssa.Instruction{site})
+					r.Check(wit == nil, "Redo:"+name+":stamp-LSN", "after formatting the page for a "+name+" record the page LSN becomes the record LSN before the page is unpinned", "path from Init to UnpinPage without SetLSN(record LSN) although the page was older: "+w.DescribeWitness(redo, wit))
 				}
 				continue
 			}
@@ -848,5 +911,120 @@ func init() {
 		fs := a.flushSumm()
 		wit = (&PathQ{Fn: fn, Avoid: fs.MustSite, Target: InstrCallsObj(a.LMActivate)}).FromAfter(aps)
 		r.Check(wit == nil && len(aps) > 0, "NewSamehadaDB:numbered-record-flushed", "the record reaches the log file before normal operation starts", "path: "+w.DescribeWitness(fn, wit))
+	})
+}
+
+func init() {
+	reg("C01-R9", "pages that were allocated and logged but never written before a crash are rebuilt: in Redo's NewTablePage case the FetchPage result is tested for nil and on the nil side the page is put on the data file (DiskManager.WritePage of the record's page id) and fetched again before TablePage.Init; the link from the previous page (not logged separately) is restored with SetNextPageID; DiskManagerImpl.WritePage moves nextPageID beyond a page written past it, so that the id is not handed out again", func(w *World, r *Report) {
+		a := w.A()
+		redo := w.Fn("recovery/log_recovery", "LogRecovery", "Redo")
+		typeFld := w.Field("recovery", "LogRecord", "LogRecordType")
+		pageIDFld := w.Field("recovery", "LogRecord", "PageID")
+		prevIDFld := w.Field("recovery", "LogRecord", "PrevPageID")
+		subj := func(v ssa.Value) bool { return fieldLoadOf(v, typeFld) }
+		kv, _ := constant.Int64Val(w.Const("recovery", "NewTablePage").Val())
+		spec := specCut(subj, kv)
+		isRecPage := func(v ssa.Value) bool { return fieldLoadOf(v, pageIDFld) }
+		isRecPrev := func(v ssa.Value) bool { return fieldLoadOf(v, prevIDFld) }
+		reach := (&PathQ{Fn: redo, Cut: []EdgeCut{spec}}).ReachableInstrs()
+		var fetches, inits, writes []ssa.Instruction
+		dmWrite := w.family(a.DMWritePage)
+		for in := range reach {
+			c, ok := in.(ssa.CallInstruction)
+			if !ok {
+				continue
+			}
+			args := c.Common().Args
+			o := CalleeObj(c)
+			switch {
+			case o == a.BPMFetch:
+				if DependsOn(args[len(args)-1], isRecPage) {
+					fetches = append(fetches, in)
+				}
+			case o == a.TPInit:
+				inits = append(inits, in)
+			case o != nil && (dmWrite[o] || dmWrite[o.Origin()]):
+				if len(args) >= 2 && DependsOn(args[len(args)-2], isRecPage) {
+					writes = append(writes, in)
+				}
+			}
+		}
+		r.Floor("FetchPage(record.PageID) sites in Redo's NewTablePage case", len(fetches), 1)
+		r.Floor("TablePage.Init sites in Redo's NewTablePage case", len(inits), 1)
+		isFetchRes := func(v ssa.Value) bool {
+			return DependsOn(v, func(x ssa.Value) bool {
+				c, ok := x.(*ssa.Call)
+				return ok && CalleeObj(c) == a.BPMFetch
+			})
+		}
+		isInit := InstrCallsObj(a.TPInit)
+		isWrite := func(in ssa.Instruction) bool {
+			for _, x := range writes {
+				if x == in {
+					return true
+				}
+			}
+			return false
+		}
+		assumeNil := nilCompareCut(isFetchRes, false)
+		wit := (&PathQ{Fn: redo, Cut: []EdgeCut{spec, assumeNil}, Avoid: isWrite, Target: isInit}).FromEntry()
+		r.Check(wit == nil, "Redo:NewTablePage:missing-page-is-materialised", "when the page is not on the data file (FetchPage returned nil) it is written as an empty page before it is initialised", "with the fetched page assumed nil, TablePage.Init is reached without DiskManager.WritePage(record.PageID): "+w.DescribeWitness(redo, wit))
+		wit = (&PathQ{Fn: redo, Cut: []EdgeCut{spec}, Avoid: InstrCallsObj(a.BPMFetch), Target: isInit}).FromAfter(writes)
+		r.Check(wit == nil && len(writes) > 0, "Redo:NewTablePage:refetch-after-materialising", "the materialised page is fetched through the pool before it is initialised", "path from WritePage to Init without FetchPage: "+w.DescribeWitness(redo, wit))
+		// relink
+		setNext := w.MethodObj("storage/access", "TablePage", "SetNextPageID")
+		isValid := w.MethodObj("types", "PageID", "IsValid")
+		isRelink := func(in ssa.Instruction) bool {
+			c, ok := in.(*ssa.Call)
+			if !ok || CalleeObj(c) != setNext {
+				return false
+			}
+			recvFromPrev := DependsOn(c.Call.Args[0], func(x ssa.Value) bool {
+				cc, ok := x.(*ssa.Call)
+				return ok && CalleeObj(cc) == a.BPMFetch && DependsOn(cc.Call.Args[len(cc.Call.Args)-1], isRecPrev)
+			})
+			argIsPage := DependsOn(c.Call.Args[1], func(x ssa.Value) bool {
+				if isRecPage(x) {
+					return true
+				}
+				cc, ok := x.(*ssa.Call)
+				return ok && cc.Call.StaticCallee() != nil && cc.Call.StaticCallee().Name() == "GetPageID"
+			})
+			return recvFromPrev && argIsPage
+		}
+		prevValid := CutWhen(func(v ssa.Value) bool {
+			c, ok := v.(*ssa.Call)
+			return ok && CalleeObj(c) == isValid && DependsOn(c.Call.Args[0], isRecPrev)
+		}, false)
+		deser := w.MethodObj("recovery/log_recovery", "LogRecovery", "DeserializeLogRecord")
+		readLog := w.family(w.MethodObj("storage/disk", "DiskManager", "ReadLog"))
+		wit = (&PathQ{Fn: redo, Cut: []EdgeCut{spec, prevValid}, Avoid: isRelink, Target: func(in ssa.Instruction) bool {
+			if isReturn(in) || InstrCallsObj(deser)(in) {
+				return true
+			}
+			c, ok := in.(ssa.CallInstruction)
+			return ok && CalleeObj(c) != nil && readLog[CalleeObj(c)]
+		}}).FromAfter(inits)
+		r.Check(wit == nil, "Redo:NewTablePage:previous-page-relinked", "the next-page link of the previous page is restored (it is written by TableHeap.InsertTuple without a log record of its own)", "path from Init to the next record without prev.SetNextPageID(page id): "+w.DescribeWitness(redo, wit))
+		// disk manager
+		wp := w.Fn("storage/disk", "DiskManagerImpl", "WritePage")
+		next := w.Field("storage/disk", "DiskManagerImpl", "nextPageID")
+		var idParam *ssa.Parameter
+		for _, p := range wp.Params {
+			if strings.HasSuffix(p.Type().String(), "types.PageID") {
+				idParam = p
+			}
+		}
+		n := 0
+		for _, b := range wp.Blocks {
+			for _, in := range b.Instrs {
+				if st, ok := in.(*ssa.Store); ok && isFieldAddrOf(st.Addr, next) {
+					if idParam != nil && DependsOn(st.Val, func(x ssa.Value) bool { return x == ssa.Value(idParam) }) {
+						n++
+					}
+				}
+			}
+		}
+		r.Check(n > 0, "DiskManagerImpl.WritePage:advances-nextPageID", "writing a page beyond nextPageID moves nextPageID past it", "no store to nextPageID derived from the pageID parameter in DiskManagerImpl.WritePage")
 	})
 }
